@@ -8,6 +8,7 @@
  * Output: JSON object on stdout. */
 #define _GNU_SOURCE
 #include <errno.h>
+#include <sys/mount.h>
 #include <fcntl.h>
 #include <grp.h>
 #include <limits.h>
@@ -108,6 +109,11 @@ int main(int argc, char **argv) {
           else if (!strcmp(pw, "symlink")) { snprintf(a, sizeof a, "%s/pwdlink", work); unlink(a); if (symlink(c, a) == 0) setenv("PWD", a, 1); }
           else if (!strcmp(pw, "other")) setenv("PWD", "/usr", 1);
       } }   /* a POSIX TZ string: no zoneinfo files needed */
+    /* ---- control-group membership as this process sees it: a private mount namespace with a regular file bound over /proc/<pid>/cgroup
+       (the kernel's text cannot be varied otherwise); the "facts" below read the same file back */
+    { const char *cgf = kv(kvs, "cgfile", ""); if (*cgf) { char *content = unhex(cgf); char fp[PATH_MAX], pp[64]; snprintf(fp, sizeof fp, "%s/fake-cgroup", work); snprintf(pp, sizeof pp, "/proc/%d/cgroup", (int)getpid());
+        FILE *cf = fopen(fp, "w"); if (!cf) { perror("fake cgroup"); return 3; } fwrite(content, 1, strlen(content), cf); fclose(cf); chmod(fp, 0644);
+        if (unshare(CLONE_NEWNS) || mount("none", "/", NULL, MS_REC | MS_PRIVATE, NULL) || mount(fp, pp, NULL, MS_BIND, NULL)) { perror("bind over /proc/pid/cgroup"); return 3; } } }
     /* ---- ids (last: needs privileges for everything above) */
     long r, e, s, rg, eg, sg;
     if (sscanf(kv(kvs, "ids", "0,0,0,0,0,0"), "%ld,%ld,%ld,%ld,%ld,%ld", &r, &e, &s, &rg, &eg, &sg) == 6) {
